@@ -6,6 +6,7 @@ import NB.Wire
 import NB.Model.Bits
 import NB.Model.Shift
 import NB.Model.AsmParams
+import NB.Model.BitsRL
 namespace NB.Drv.C07
 open NB NB.Wire NB.C07
 
@@ -110,6 +111,70 @@ def oShrI (x : BigInt) (k : Int) : String :=
   if k < 0 then "panic negshift" else
   if k.toNat > 64 * x.mag.length then si (.ok (BigInt.ofInt (if x.val < 0 then -1 else 0))) else
   si (.ok (BigInt.ofInt (x.val / (2 : Int) ^ k.toNat)))
+
+/-- `digit*count,digit*count,…` (hex digit, decimal count) -/
+def parseRL (s : String) : Option (List (Nat × Nat)) :=
+  (s.splitOn ",").mapM (fun t =>
+    match t.splitOn "*" with
+    | [d, n] => do
+      let d ← parseLimbs d
+      let n ← n.toNat?
+      match d with
+      | [x] => some (x, n)
+      | [] => some (0, n)
+      | _ => none
+    | _ => none)
+
+def hugeQuery (q : String) (s : List (Nat × Nat)) : Option String :=
+  if q == "count_ones" then some (sn (countOnesRL s))
+  else if q == "bits" then some (sn (bitsRL s))
+  else if q == "trailing_zeros" then some (son (trailingZerosRL s))
+  else if q == "trailing_ones" then some (sn (trailingOnesRL s))
+  else match q.splitOn ":" with
+    | ["bit", k] => do let k ← k.toNat?; some (sb (bitRL s k))
+    | _ => none
+
+/-- independent closed forms over the segments (bit tests on the digits instead of the model's digit intrinsics) -/
+def oLowestBit (p : Nat → Bool) : Option Nat := (List.range 64).find? p
+
+def oHuge (q : String) (s : List (Nat × Nat)) : String :=
+  let s := s.filter (fun x => x.2 != 0)
+  let total := (s.map (·.2)).foldl (· + ·) 0
+  let firstWhere (p : Nat → Bool) : Option (Nat × Nat) :=   -- (digits before, digit)
+    (s.foldl (fun (acc : Nat × Option (Nat × Nat)) x =>
+      match acc.2 with
+      | some _ => acc
+      | none => if p x.1 then (acc.1, some (acc.1, x.1)) else (acc.1 + x.2, none)) (0, none)).2
+  if q == "count_ones" then
+    sn ((s.map (fun x => x.2 * ((List.range 64).filter (fun i => x.1.testBit i)).length)).foldl (· + ·) 0)
+  else if q == "bits" then
+    match s.getLast? with
+    | none => sn 0
+    | some (top, _) => if top = 0 then "-" else sn (64 * (total - 1) + Nat.log2 top + 1)
+  else if q == "trailing_zeros" then
+    match firstWhere (fun d => d % B != 0) with
+    | none => "none"
+    | some (off, d) => match oLowestBit (fun i => d.testBit i) with
+      | some i => "some " ++ toString (64 * off + i)
+      | none => "-"
+  else if q == "trailing_ones" then
+    match firstWhere (fun d => d % B != B - 1) with
+    | none => sn (64 * total)
+    | some (off, d) => match oLowestBit (fun i => !d.testBit i) with
+      | some i => sn (64 * off + i)
+      | none => "-"
+  else match q.splitOn ":" with
+    | ["bit", k] =>
+      match k.toNat? with
+      | none => "-"
+      | some k =>
+        let idx := k / 64
+        let r := s.foldl (fun (acc : Nat × Option Bool) x =>
+          match acc.2 with
+          | some _ => acc
+          | none => if idx < acc.1 + x.2 then (acc.1, some (x.1.testBit (k % 64))) else (acc.1 + x.2, none)) (0, none)
+        sb (r.2.getD false)
+    | _ => "-"
 
 def handle (op : String) (args : List String) : Option (String × String) :=
   match op, args with
@@ -225,6 +290,16 @@ def handle (op : String) (args : List String) : Option (String × String) :=
   | "u.count_ones", [a] => do
     let a ← parseLimbs a
     pure (sn (countOnesU a), sn (oCountOnes (val a)))
+  -- bit queries on run-length encoded (huge) operands: the model column evaluates the RL definitions of
+  -- NB.Model.BitsRL, proved equal to the list definitions on the expansion (Props/C07RL); oracle: independent closed forms `oHuge`
+  | "u.huge", [q, segs] => do
+    let s ← parseRL segs
+    let r ← hugeQuery q s
+    pure (r, oHuge q s)
+  | "i.huge", [q, _, segs] => do
+    let s ← parseRL segs
+    let r ← (if q == "bits" || q == "trailing_zeros" then hugeQuery q s else none)
+    pure (r, oHuge q s)
   | _, _ => none
 
 end NB.Drv.C07
